@@ -3,11 +3,11 @@
    A small labelled transition system over the goroutines that touch a message handler:
      U  the user                 RetryClient.Handle                       retryclient.go:92-99
      R  the reconnect loop       Dial / SetClient / Connect / wait Done   reconnclient.go:87-160,
-                                                                           retryclient.go:276-288, 418-441
+                                                                           retryclient.go:276-288, 428-451
      B  the broker + the reader  one inbound message handed over          serve.go:69-141
    State that matters: RetryClient.handler (retryclient.go:37), RetryClient.cli, and per BaseClient
    its handler field (client.go:39, written by BaseClient.Handle client.go:92-97 under c.mu, read by
-   the reader under c.mu.RLock once PER MESSAGE: serve.go:77-82 QoS 0, 85-90 QoS 1, 131-136 QoS 2 at
+   the reader under c.mu.RLock once PER MESSAGE: serve.go:77-82 QoS 0, 86-91 QoS 1, 132-137 QoS 2 at
    PUBREL time) and how far its connection has got.
 
    Concurrency is an explicit schedule: a list of labels; [step] says whether a label is enabled and
@@ -26,7 +26,7 @@ Definition hval := option hid.       (* a Handler value; None = nil (Handle(nil)
 (* progress of one BaseClient k *)
 Inductive phase :=
 | Fresh        (* returned by the Dialer, Connect not called on it *)
-| Installed    (* RetryClient.Connect has run cli.Handle(c.handler) under c.mu (retryclient.go:419-423),
+| Installed    (* RetryClient.Connect has run cli.Handle(c.handler) under c.mu (retryclient.go:429-433),
                   BaseClient.Connect has not started the reader yet *)
 | Reading      (* BaseClient.Connect: reader goroutine started, CONNECT written (connect.go:116-148) *)
 | Acked        (* the reader has processed the CONNACK (serve.go:57-66) *)
@@ -52,6 +52,12 @@ Inductive label :=
 | R_connack (k : nat)          (* reader of k processes CONNACK *)
 | B_inbound (k : nat) (m : N)  (* reader of k hands over inbound message m: reads k's handler at that
                                   moment (PUBLISH for QoS 0/1, PUBREL for QoS 2) *)
+| B_inbound_handle (k : nat) (m : N) (h : hval)
+                               (* the same, and the handler that is called, before it returns, itself
+                                  calls RetryClient.Handle(h) on the reader goroutine (a handler that
+                                  hands over to its successor). Enabled only if a handler is called.
+                                  Legal in /repo because the reader takes its snapshot of c.handler and
+                                  RELEASES c.mu before the call (serve.go:77-82, 86-91, 132-137) *)
 | R_connect_return (k : nat)   (* RetryClient.Connect returns to its caller (after CONNACK) *)
 | R_end (k : nat).             (* connection k ends (peer close, Close, error): reader gone *)
 
@@ -63,6 +69,7 @@ Inductive event := Deliver (k : nat) (m : N) (h : hval).
 Inductive result :=
 | Next (s : sys) (evs : list event)
 | Disabled                     (* the label cannot happen in this state (not a schedule of the system) *)
+| Deadlocked                   (* the step never finishes: a goroutine waits for a lock it holds itself *)
 | Panicked.                    (* Go panic: RetryClient.Connect before any SetClient dereferences a nil *BaseClient *)
 
 (* ---------- implementation variants ---------- *)
@@ -73,11 +80,13 @@ Record impl := {
   i_store : store_mode;          (* Handle: c.handler = handler *)
   i_forward : bool;              (* Handle: if c.cli != nil { c.cli.Handle(handler) } *)
   i_install : install_mode;      (* Connect: cli.Handle(c.handler) before cli.Connect *)
-  i_setclient_clears : bool      (* SetClient: (wrongly) c.handler = nil *)
+  i_setclient_clears : bool;     (* SetClient: (wrongly) c.handler = nil *)
+  i_lock_through_callback : bool (* reader: (wrongly) holds BaseClient.mu.RLock while the handler runs *)
 }.
 
 Definition faithful : impl :=
-  {| i_store := StoreAlways; i_forward := true; i_install := InstallAtBegin; i_setclient_clears := false |}.
+  {| i_store := StoreAlways; i_forward := true; i_install := InstallAtBegin; i_setclient_clears := false;
+     i_lock_through_callback := false |}.
 
 (* ---------- helpers ---------- *)
 Fixpoint upd (k : nat) (f : client -> client) (cs : list client) : list client :=
@@ -113,21 +122,26 @@ Definition no_events (c : client) : list event := [].
 (* "this is the first client that gets connected": every client is still Fresh *)
 Definition all_fresh (cs : list client) : bool := forallb (fun c => is_fresh (c_phase c)) cs.
 
+(* RetryClient.Handle, retryclient.go:92-99, one critical section of c.mu *)
+Definition do_handle (v : impl) (s : sys) (h : hval) : sys :=
+  let rc' := match i_store v, cur s with
+             | StoreAlways, _ => h
+             | StoreIfNoClient, None => h
+             | _, _ => rc_handler s
+             end in
+  let cs' := match cur s with
+             | Some k => if i_forward v then upd k (set_handler h) (clients s) else clients s
+             | None => clients s
+             end in
+  {| rc_handler := rc'; cur := cur s; clients := cs' |}.
+
+Definition is_cur (s : sys) (k : nat) : bool :=
+  match cur s with Some k' => Nat.eqb k k' | None => false end.
+
 (* ---------- the transition function ---------- *)
 Definition step_gen (v : impl) (s : sys) (l : label) : result :=
   match l with
-  | U_handle h =>
-      (* retryclient.go:92-99, one critical section of c.mu *)
-      let rc' := match i_store v, cur s with
-                 | StoreAlways, _ => h
-                 | StoreIfNoClient, None => h
-                 | _, _ => rc_handler s
-                 end in
-      let cs' := match cur s with
-                 | Some k => if i_forward v then upd k (set_handler h) (clients s) else clients s
-                 | None => clients s
-                 end in
-      Next {| rc_handler := rc'; cur := cur s; clients := cs' |} []
+  | U_handle h => Next (do_handle v s h) []
   | R_dial h0 =>
       Next (with_clients s (clients s ++ [{| c_handler := h0; c_phase := Fresh |}])) []
   | R_set_client k =>
@@ -140,7 +154,7 @@ Definition step_gen (v : impl) (s : sys) (l : label) : result :=
       | None => Disabled
       end
   | R_connect_begin =>
-      (* retryclient.go:419-423: c.mu.Lock(); cli := c.cli; cli.Handle(c.handler); ...; c.mu.Unlock() *)
+      (* retryclient.go:429-433: c.mu.Lock(); cli := c.cli; cli.Handle(c.handler); ...; c.mu.Unlock() *)
       match cur s with
       | None => Panicked
       | Some k =>
@@ -155,8 +169,25 @@ Definition step_gen (v : impl) (s : sys) (l : label) : result :=
   | R_connect_start k => on_client s k is_installed (set_phase Reading) no_events
   | R_connack k => on_client s k is_reading (set_phase Acked) no_events
   | B_inbound k m =>
-      (* serve.go:77-82 / 85-90 / 131-136: handler := c.handler under RLock; if handler != nil { Serve } *)
+      (* serve.go:77-82 / 86-91 / 132-137: handler := c.handler under RLock; if handler != nil { Serve } *)
       on_client s k reader_runs (fun c => c) (fun c => [Deliver k m (c_handler c)])
+  | B_inbound_handle k m h =>
+      (* the handler called for m calls RetryClient.Handle(h): c.mu of the RetryClient, then
+         BaseClient.Handle of the CURRENT client (client.go:93-97, c.mu.Lock of that client). If the
+         reader still held its own client's RLock (it does not), and that client is the current one,
+         the write lock would wait for the reader, i.e. for itself *)
+      match nth_error (clients s) k with
+      | Some c =>
+          if reader_runs (c_phase c) then
+            match c_handler c with
+            | None => Disabled
+            | Some hh =>
+                if i_lock_through_callback v && is_cur s k then Deadlocked
+                else Next (do_handle v s h) [Deliver k m (Some hh)]
+            end
+          else Disabled
+      | None => Disabled
+      end
   | R_connect_return k =>
       on_client s k is_acked
                 (fun c => match i_install v with
@@ -176,6 +207,7 @@ Fixpoint run_from (v : impl) (s : sys) (evs : list event) (ls : list label) : re
       match step_gen v s l with
       | Next s' e => run_from v s' (evs ++ e) r
       | Disabled => Disabled
+      | Deadlocked => Deadlocked
       | Panicked => Panicked
       end
   end.
@@ -203,6 +235,7 @@ Fixpoint run_loop_from (s : sys) (evs : list event) (ls : list label) : result :
       match step_loop s l with
       | Next s' e => run_loop_from s' (evs ++ e) r
       | Disabled => Disabled
+      | Deadlocked => Deadlocked
       | Panicked => Panicked
       end
   end.
@@ -211,11 +244,13 @@ Definition run_loop (ls : list label) : result := run_loop_from init [] ls.
 
 (* ---------- specification, over the history (labels) and the observable events only ---------- *)
 
-(* the handler registered by the latest Handle call of the history (nil before the first call) *)
+(* the handler registered by the latest Handle call of the history (nil before the first call);
+   a Handle call made from inside a handler callback counts like any other *)
 Fixpoint last_handle_from (h : hval) (ls : list label) : hval :=
   match ls with
   | [] => h
   | U_handle h' :: r => last_handle_from h' r
+  | B_inbound_handle _ _ h' :: r => last_handle_from h' r
   | _ :: r => last_handle_from h r
   end.
 Definition last_handle (ls : list label) : hval := last_handle_from None ls.
@@ -234,6 +269,7 @@ Fixpoint count_inbound (ls : list label) : nat :=
   match ls with
   | [] => O
   | B_inbound _ _ :: r => S (count_inbound r)
+  | B_inbound_handle _ _ _ :: r => S (count_inbound r)
   | _ :: r => count_inbound r
   end.
 
@@ -245,6 +281,7 @@ Fixpoint spec_from (h : hval) (ls : list label) : list event :=
   | [] => []
   | U_handle h' :: r => spec_from h' r
   | B_inbound k m :: r => Deliver k m h :: spec_from h r
+  | B_inbound_handle k m h' :: r => Deliver k m h :: spec_from h' r
   | _ :: r => spec_from h r
   end.
 Definition spec_events (ls : list label) : list event := spec_from None ls.
@@ -261,6 +298,11 @@ Fixpoint spec_current_from (h : hval) (c : option nat) (ls : list label) : list 
        | Some k' => if Nat.eqb k k' then Some (Deliver k m h) else None
        | None => None
        end) :: spec_current_from h c r
+  | B_inbound_handle k m h' :: r =>
+      (match c with
+       | Some k' => if Nat.eqb k k' then Some (Deliver k m h) else None
+       | None => None
+       end) :: spec_current_from h' c r
   | _ :: r => spec_current_from h c r
   end.
 Definition spec_current (ls : list label) : list (option event) := spec_current_from None None ls.
